@@ -365,3 +365,33 @@ Theorem C06_pst13_combinations_complete :
     pst_check_combinations nv betas lcs cs qs ev pfs chal vtape = Ok (true, rest, length (groups qs)).
 Proof. exact @pst13_lc_complete. Qed.
 Print Assumptions C06_pst13_combinations_complete.
+
+(* IPA open_combinations -> check_combinations, end to end (free-module view): items that are commitments to their polynomials in
+   the sense the opening needs (sem_honest: what commit produces, honest_sem), the verifier holding the same commitments,
+   combinations of polynomials without degree bounds under distinct labels, a key size that is a power of two, non-zero round
+   challenges, claims that are the stated combinations of the true evaluations *)
+From PC Require Import Proofs.IPAComplete Proofs.IPABatchComplete Proofs.IPALCComplete.
+Theorem C06_ipa_combinations_complete :
+  forall (FO : FieldOps) (FL : FieldLaws FO) d,
+    (d + 1 = 2 ^ Nat.log2_up (d + 1))%nat ->
+    forall lcs items cs qs ev chal hchal rng vtape pfs rest hrest rng',
+    il_honest d (of_list N.compare (map (fun it => (lp_label (fst (fst it)), it)) items)) ->
+    il_agree (of_list N.compare (map (fun it => (lp_label (fst (fst it)), it)) items)) (of_list N.compare cs) ->
+    NoDup (map fst lcs) ->
+    (forall lab terms, In (lab, terms) lcs -> unbounded (of_list N.compare (map (fun it => (lp_label (fst (fst it)), it)) items)) terms) ->
+    Forall (fun rc => rc <> 0) hchal ->
+    (forall pl pt labels lab terms, In (pl, (pt, labels)) (groups qs) -> In lab labels -> In (lab, terms) lcs ->
+        lookup_eval lab pt ev
+        = Some (LC.lc_value (i_poly_of (of_list N.compare (map (fun it => (lp_label (fst (fst it)), it)) items)) (hd 0 pt)) terms)) ->
+    (length (groups qs) <= length vtape)%nat ->
+    i_open_combinations d lcs items qs (chal, hchal, rng) = Ok (pfs, (rest, hrest, rng')) ->
+    i_check_combinations d lcs cs qs ev pfs chal hchal vtape = Ok (true, rest, hrest, length (groups qs)).
+Proof. exact @ipa_lc_complete. Qed.
+Print Assumptions C06_ipa_combinations_complete.
+
+(* commitments made by commit are commitments in that sense *)
+Theorem C06_ipa_commit_is_sem_honest :
+  forall (FO : FieldOps) (FL : FieldLaws FO) d lp rng cm st n,
+    i_commit1 d lp rng = Ok (cm, st, n) -> sem_honest d (lp, lp_bound lp, cm, st).
+Proof. exact @commit1_sem_honest. Qed.
+Print Assumptions C06_ipa_commit_is_sem_honest.
